@@ -218,6 +218,15 @@ theorem site_limits_from_source :
     Generated.C09Facts.maxServerResponseSize = Site.limit .server ∧
     Generated.C09Facts.maxClientResponseSize = Site.limit .client := by decide
 
+/-- **The time-out periods in the source are the named constants of the sites.**  The time-out
+argument of each of the two calls is literally `serverResponseTimeout` / `clientResponseTimeout`
+(not an expression evaluated when a read begins), and their values are 10 s and 20 s. -/
+theorem site_timeouts_from_source :
+    Generated.C09Facts.serverRunnerTimeouts = ["serverResponseTimeout"] ∧
+    Generated.C09Facts.clientRunnerTimeouts = ["clientResponseTimeout"] ∧
+    Generated.C09Facts.serverResponseTimeoutMs = Site.timeoutMs .server ∧
+    Generated.C09Facts.clientResponseTimeoutMs = Site.timeoutMs .client := by decide
+
 /-- **Oversize at each call site**: `oversize_rejected_early` with the limit of the site — a
 server (client) that announces more than 1 MB (16 MB) after any number of good messages is
 reported as too large after exactly the four prefix bytes, and no buffer above the site's limit
